@@ -170,9 +170,33 @@ def run(ctx):
         sessions.append(nc.build_session(sid, inp, api=None if inp["engine"] != "symdel" else ("nearest_neighbor", "symdel")[sid % 2],
                                          with_internal=False, container=ctx.rng.choice(conts), output=ctx.rng.choice(["coo_matrix", "ndarray"])))
     npx.count_sessions(ctx, sessions)
+    # limited searches (kdtree max_returns): the reported triplet set is not symmetric, so a transposed matrix shows
+    for r in range(6 if ctx.quick else 40):
+        sid += 1
+        m = ctx.rng.choice([1, 1, 2])
+        k = ctx.rng.choice([1, 2, 2])
+        mode = ("lev", "hamming")[r % 3 == 2]
+        seqs = nc.repertoire(ctx.rng, ctx.rng.randint(8, 24), maxmut=2, maxlen=11, families=3, same_length=(mode == "hamming"))
+        inp = nc.make_inp("kd", mode, k, seqs)
+        cont = ctx.rng.choice(conts)
+        out = ("ndarray", "coo_matrix")[r % 2]
+        ev_j = dict(op="JoinLimited", limit=m, raised=False, ret=[], exc="")
+        ev_o = dict(op="OutputLimited", raised=False, ret=[], dense=[], exc="")
+        try:
+            ev_j["ret"] = nc.norm_triplets(nc.call_engine(inp, max_returns=m, container=cont), mode)
+            ev_o["ret"] = ev_j["ret"]
+            o = nc.call_engine(inp, max_returns=m, container=cont, output_type=out)
+            ev_o["dense"] = nc.norm_dense(o.toarray() if out == "coo_matrix" else o, mode)
+        except Exception as e:     # noqa: BLE001
+            ev_o.update(raised=True, exc=f"{type(e).__name__}: {e}"[:200])
+        sessions.append(dict(sid=sid, inp=inp, letters=nc.AA, api="kdtree", container=cont, output=out, kind="limited",
+                             events=[dict(op="CheckInput", raised=False), dict(op="Build", logged=False), ev_j, ev_o]))
+        ctx.case(dict(kind="max_returns/output", m=m, n=len(seqs), k=k, mode=mode, output=out, asymmetric=sorted((a, b) for a, b, _ in ev_j["ret"]) != sorted((b, a) for a, b, _ in ev_j["ret"])),
+                 nontrivial=len(ev_j["ret"]) > 0)
     verdicts = nc.validate_sessions(ctx, sessions, letters=codes, invariants=("Exact", "NoRepeat", "DenseExact"))
     for s in sessions:
-        api, _ = nc.failed_api_clauses(verdicts[s["sid"]])
+        api, drift = nc.failed_api_clauses(verdicts[s["sid"]])
+        api = api + [x for x in drift if x[1] == "JoinLimited"]
         ctx.traces += 1
         for l, op, clause in api:
             ctx.violation(classify(s["inp"], s["container"], clause),
